@@ -27,6 +27,23 @@ impl<Pr: BitArray, const P: usize> EncoderModel<P> for Raw<Pr, P> {
     }
 }
 
+/// Encoder model over the symbols {true, false}: `true` has (c, p), `false` is IMPOSSIBLE (no probability).
+/// Lets a batch contain an item that the coder must refuse.
+#[derive(Clone, Copy, Debug, PartialEq, Eq, Hash)]
+pub struct OptRaw<Pr, const P: usize> {
+    pub c: Pr,
+    pub p: Pr,
+}
+impl<Pr: BitArray, const P: usize> EntropyModel<P> for OptRaw<Pr, P> {
+    type Symbol = bool;
+    type Probability = Pr;
+}
+impl<Pr: BitArray, const P: usize> EncoderModel<P> for OptRaw<Pr, P> {
+    fn left_cumulative_and_probability(&self, s: impl Borrow<bool>) -> Option<(Pr, Pr::NonZero)> {
+        if *s.borrow() { Some((self.c, self.p.into_nonzero().expect("OptRaw model with zero probability"))) } else { None }
+    }
+}
+
 /// Decoder model: the three-part partition `[0,c) [c,c+p) [c+p,2^P)` with symbols 0,1,2
 /// (empty parts are never hit).
 #[derive(Clone, Copy, Debug, PartialEq, Eq, Hash)]
